@@ -63,7 +63,7 @@ def value_of(tokens, env):
 def meta(tier):
     q = tier == 'quick'
     return {
-        'rule': 'symbol tables: AB in 8 values x CD in 5 x EF in 4 (undefined, literal, chain, diamond, self, 2-/3-cycles, identifiers '
+        'rule': 'a symbol beside quoted characters / strings on the same line (8 line shapes x 3 definition sources); symbol tables: AB in 8 values x CD in 5 x EF in 4 (undefined, literal, chain, diamond, self, 2-/3-cycles, identifiers '
                 'containing a symbol name) x definition source of each defined symbol in {ISA, -D, #define} x use-line token pairs '
                 '(written once before and once after the #define block, as `.byte t1, t2`, through `T = t1` and as the operand of `ldi b, t2`); plus every '
                 'double definition across and within sources; replacement texts with backslash escapes (5 strings x 3 sources x chains of 0..2 intermediate '
@@ -184,7 +184,8 @@ def shard(acc, tier, idx, n):
     ctr = string_replacements(acc, idx, n, ctr)
     ctr = empty_replacements(acc, idx, n, ctr)
     ctr = many_occurrences(acc, idx, n, ctr)
-    number_like_names(acc, idx, n, ctr)
+    ctr = number_like_names(acc, idx, n, ctr) or ctr + 5000
+    beside_quoted_text(acc, idx, n, ctr)
 
 
 # replacement texts that carry backslashes (string escapes): copied verbatim, whatever the source and through chains
@@ -274,6 +275,40 @@ def many_occurrences(acc, idx, n, ctr0):
         if msg:
             acc.violation([case], spec, f'{count} occurrences of one symbol in one {where} ({src}): {msg}', [out])
         acc.judge(clause='substituted', nontrivial_key=('many', src, count, where))
+    return ctr
+
+
+def beside_quoted_text(acc, idx, n, ctr0):
+    """An occurrence outside quotes is replaced wherever quoted characters or strings stand on the same line: before it, after it, on
+    both sides of it, with either kind of quote."""
+    ctr = ctr0
+    uses = [
+        ("    .byte 1, 'x', MV, 'y'", [1, 0x78, 5, 0x79]),
+        ("    .byte MV, 'x', MV", [5, 0x78, 5]),
+        ("    .byte 1, 'x', 'y', MV", [1, 0x78, 0x79, 5]),
+        ("    ldi a, 'x' + MV - 'y' + 2", [0xA0, 0x78 + 5 - 0x79 + 2]),
+        ("    ldi a, '\"' + MV - '\"'", [0xA0, 5]),
+        ("    ldi a, MV + 'x' - 'x'", [0xA0, 5]),
+        ("    ldi a, 'x' nop ldi b, MV ldi a, 'y'", [0xA0, 0x78, 0xEA, 0xA1, 5, 0xA0, 0x79]),
+        ('    .byte 2, MV\n    .cstr "a b"\n    .byte MV', [2, 5, 0x61, 0x20, 0x62, 0, 5]),
+    ]
+    for src, (use, body) in itertools.product(SOURCES, uses):
+        ctr += 1
+        if ctr % n != idx:
+            continue
+        table = {'MV': '5'}
+        isa_syms = [{'name': k, 'value': v} for k, v in table.items()] if src == 'isa' else []
+        cli = [f'{k}={v}' for k, v in table.items()] if src == 'cli' else []
+        lines = [f'#define {k} {v}' for k, v in table.items()] if src == 'define' else []
+        lines += [use, '    .byte $EE']
+        case = Case(probe_isa(16, 'little', symbols=isa_syms or None), '\n'.join(lines) + '\n', defines=cli)
+        out = acc.run(case)
+        acc.transition()
+        spec = {'expect': 'OK', 'image_hex': bytes(body + [0xEE]).hex(), 'source': src, 'use': use}
+        msg = judge_expect(spec, [out])
+        if msg:
+            acc.violation([case], spec, f'symbol beside quoted text ({src}) in {use.strip()!r}: {msg}', [out])
+        acc.judge(clause='substituted', nontrivial_key=('quoted', src, use))
     return ctr
 
 
